@@ -47,7 +47,11 @@ def violators (e : Env) (s : State) : List (String × String × List String) :=
     ("C17", "didFunctional", if didFunctional s.did then [] else ["did"]),
     -- the same chain account is one account however its id is spelled (eip155 addresses are case-insensitive hex)
     ("C17", "accountBoundOnce",
-      let norm (b : Bytes) : Bytes := if isPrefixB [101, 105, 112, 49, 53, 53, 58] b then b.map (fun c => if 65 ≤ c && c ≤ 90 then c + 32 else c) else b
+      let norm (b : Bytes) : Bytes :=
+        -- the chain account an id stands for: its first three ':'-separated segments (what the proof check reads) …
+        let b3 := ((splitB b 58).take 3).foldl (fun acc seg => if acc = [] then seg else acc ++ [58] ++ seg) []
+        -- … with hex addresses in lower case
+        if isPrefixB [101, 105, 112, 49, 53, 53, 58] b3 then b3.map (fun c => if 65 ≤ c && c ≤ 90 then c + 32 else c) else b3
       let ids := s.did.did.map (fun x => norm x.accountId)
       if ids.eraseDups.length = ids.length then [] else ["same-account-two-spellings"]),
     ("C17", "didListsAgree", if didListsAgree s.did then [] else ["did"]),
@@ -454,6 +458,34 @@ def checkStep (e : Env) (pre : Sys) (op : Op) (res : Res) (post : Sys) (origin :
                         then some ("C08", s!"clause=rewardDebtRebased cls=none rec=sp{p'.creator}") else none
             | none => if !rebased then some ("C08", s!"clause=rewardDebtRebased cls=none rec=sp{p'.creator}:new") else none)
         | none => [])
+     else []) ++
+  -- C12: a shard the timeout mechanism has retired (handed to a replacement provider) stays retired: an accepted Complete
+  -- stores a shard that was waiting for it, or takes over a migration — nothing else
+  (match op, res with
+   | .complete _ p oid _ _ _, .ok =>
+     (match pre.st.getOrder oid with
+      | some o =>
+        (match getOrderShardBySP pre.st o p with
+         | some sh => if sh.status = ShardWaiting || sh.status = ShardMigrating then []
+                      else [("C12", s!"clause=completeOnlyPending cls=none rec=shard{sh.id}:status={sh.status}")]
+         | none => [])
+      | none => [])
+   | _, _ => []) ++
+  -- C04: storage income accrues with bytes x blocks stored and in no other way: within a block (the height does not move)
+  -- what a provider has earned so far — recorded reward plus rate x blocks since the last settlement — is changed by no
+  -- operation except the provider's own claim, whatever shards it is given or loses
+  (match op with
+   | .advance .. => []
+   | _ =>
+     if res = .ok && post.st.h = pre.st.h then
+       post.st.workers.filterMap (fun w' =>
+         let claimed : Bool := match op with | .claim c => decide (c = w'.sp) | _ => false
+         if claimed then none else
+         let earned' := w'.reward + Dec.mulInt w'.incomePerSecond (post.st.h - w'.lastRewardAt)
+         let earned := match pre.st.getWorker w'.sp with
+           | some w => w.reward + Dec.mulInt w.incomePerSecond (pre.st.h - w.lastRewardAt)
+           | none => 0
+         if earned' = earned then none else some ("C04", s!"clause=incomeContinuous cls=none rec=sp{w'.sp}:{earned}->{earned'}"))
      else []) ++
   -- C04: what a termination, cancellation or force-push settlement pays back to a client never exceeds
   -- what the orders that end in that step were charged
